@@ -21,13 +21,14 @@ import (
 	"github.com/bbva/qed/consensus"
 	"github.com/bbva/qed/crypto/hashing"
 	"github.com/bbva/qed/protocol"
+	"github.com/bbva/qed/rocksdb"
 	"github.com/bbva/qed/storage"
 	"github.com/bbva/qed/storage/rocks"
 	"github.com/bbva/qed/verifx/hx"
 )
 
 type Event struct {
-	Kind string `json:"kind"` // add | stop | start | snapshot | transfer
+	Kind string `json:"kind"` // add | stop | start | snapshot | transfer | backup | rebuild
 	K    int    `json:"n,omitempty"`
 }
 
@@ -86,7 +87,25 @@ func freeAddr() string {
 	return l.Addr().String()
 }
 
+// start retries while the loopback port is taken: the ports were probed free when the child began, and
+// on a busy machine another process can grab one while this member is down (the sandbox, not QED)
 func (m *member) start(bootstrap bool, seeds []string, trailing uint64) error {
+	var err error
+	for i := 0; i < 40; i++ {
+		err = m.start1(bootstrap, seeds, trailing)
+		if err == nil || !strings.Contains(err.Error(), "address already in use") {
+			return err
+		}
+		if m.store != nil {
+			m.store.Close()
+			m.store = nil
+		}
+		time.Sleep(250 * time.Millisecond)
+	}
+	return err
+}
+
+func (m *member) start1(bootstrap bool, seeds []string, trailing uint64) error {
 	opts := consensus.DefaultClusteringOptions()
 	opts.NodeID = fmt.Sprintf("n%d", m.id)
 	opts.Addr, opts.MgmtAddr, opts.HttpAddr = m.addr[0], m.addr[1], m.addr[2]
@@ -127,6 +146,20 @@ func (m *member) stop() error {
 	err := m.node.Close(true)
 	m.node = nil
 	return err
+}
+
+// restoreLatest is cmd/restore.go's runRestore for the latest backup.
+func restoreLatest(backupDir, dst string) error {
+	bo := rocksdb.NewDefaultOptions()
+	defer bo.Destroy()
+	be, err := rocksdb.OpenBackupEngine(bo, backupDir)
+	if err != nil {
+		return err
+	}
+	defer be.Close()
+	ro := rocksdb.NewRestoreOptions()
+	defer ro.Destroy()
+	return be.RestoreDBFromLatestBackup(dst, dst, ro)
 }
 
 // a node is restarted with the configuration it was started with: the other members as seeds (used
@@ -205,6 +238,7 @@ func run(base string, sc Scenario) (res Result) {
 	}
 	var acked []*balloon.Snapshot
 	var digests [][]byte
+	var backupOf *member
 	down := -1
 	converge := func(what string) bool {
 		deadline := time.Now().Add(patience * 90 * time.Second)
@@ -287,10 +321,57 @@ func run(base string, sc Scenario) (res Result) {
 				return fail("start: nothing is down")
 			}
 			if err := ms[down].start(false, seedsFor(ms, down), sc.TrailingLogs); err != nil {
+				if strings.Contains(err.Error(), "address already in use") {
+					return fail("the follower's port was taken by another process while it was down")
+				}
 				res.Problems = append(res.Problems, "a stopped follower does not start again on its data: "+err.Error())
 				return res
 			}
 			down = -1
+		case "backup":
+			ld := leader()
+			if ld == nil {
+				return fail("backup: no leader")
+			}
+			if err := ld.node.CreateBackup(); err != nil {
+				return fail("backup fails: %v", err)
+			}
+			backupOf = ld
+		case "rebuild":
+			// disaster recovery of one server: a follower loses everything, its store is restored from the
+			// leader's last backup (as cmd/restore.go does it), its raft directory is empty, and it joins again
+			ld := leader()
+			if ld == nil || backupOf == nil || down >= 0 {
+				return fail("rebuild: no leader, no backup, or a node is down")
+			}
+			if !converge("before a follower is rebuilt") {
+				return res
+			}
+			var f *member
+			for i := 2; i >= 0; i-- {
+				if ms[i] != ld && ms[i] != backupOf && ms[i].node != nil {
+					f = ms[i]
+					break
+				}
+			}
+			if f == nil {
+				return fail("rebuild: no follower to rebuild")
+			}
+			if err := f.stop(); err != nil {
+				res.Problems = append(res.Problems, "a follower cannot be stopped cleanly: "+err.Error())
+			}
+			os.RemoveAll(f.dir)
+			os.MkdirAll(filepath.Join(f.dir, "db"), 0755)
+			if err := restoreLatest(filepath.Join(backupOf.dir, "db", "backups"), filepath.Join(f.dir, "db")); err != nil {
+				return fail("restore fails: %v", err)
+			}
+			if err := f.start(false, seedsFor(ms, f.id), sc.TrailingLogs); err != nil {
+				if strings.Contains(err.Error(), "address already in use") {
+					return fail("the follower's port was taken by another process while it was down")
+				}
+				res.Problems = append(res.Problems, "a server rebuilt from a backup does not join the cluster again: "+err.Error())
+				return res
+			}
 		case "snapshot":
 			ld := leader()
 			if ld == nil {
@@ -312,6 +393,9 @@ func run(base string, sc Scenario) (res Result) {
 	}
 	if down >= 0 {
 		if err := ms[down].start(false, seedsFor(ms, down), sc.TrailingLogs); err != nil {
+			if strings.Contains(err.Error(), "address already in use") {
+				return fail("the follower's port was taken by another process while it was down")
+			}
 			res.Problems = append(res.Problems, "a stopped follower does not start again on its data: "+err.Error())
 			return res
 		}
